@@ -77,6 +77,7 @@ K2MAX = int(os.environ.get('C17_K2MAX', '0'))    # second fault position (0 = of
 K3MAX = int(os.environ.get('C17_K3MAX', '0'))    # third fault position (thorough tier)
 FULL = os.environ.get('C17_FULL') == '1'         # thorough tier: every kind combination for two faults
 KINDS = 3
+EXIT_DIED = 9
 MODES = int(os.environ.get('C17_MODES', '4'))
 
 MODE_KW = ({}, dict(immediate=True), dict(serializable=True), dict(optimistic=False))
@@ -130,11 +131,13 @@ class Plan(object):
             if (self.compare(k, n) if self.compare is not None else k == n):
                 self.hit += 1
                 kind = self.kinds[i]
-                self.log.append((n, op, sql, ('ERROR', 'DIES', 'ERROR-AFTER-EFFECT')[kind]))
+                self.log.append((n, op, sql, ('ERROR', 'DIES', 'ERROR-AFTER-EFFECT', 'EXIT')[kind]))
                 if kind == 2:
                     def after():
                         raise sqlite3.OperationalError('injected error after statement %d (%s) took effect' % (n, op))
                     return after
+                if kind == 3:
+                    os._exit(EXIT_DIED)        # concrete tie only (tie_main): the process really ends here
                 if kind == 1:
                     self.dead = True
                 raise sqlite3.OperationalError('injected %s at statement %d (%s)' % ('death' if kind else 'error', n, op))
@@ -415,10 +418,10 @@ def p_db_insert(E, mark):
 
 
 def p_get_connection(E, mark):
-    E.Acct[1].bal -= 50
-    con = E.db.get_connection()
+    con = E.db.get_connection()                 # nothing pending yet: get_connection itself has to open the transaction
     cur = con.cursor()
-    cur.execute('UPDATE Acct SET bal = bal + 50 WHERE id = 2')
+    cur.execute('UPDATE Acct SET bal = bal - 50 WHERE id = 1')
+    E.Acct[2].bal += 50
     E.Log(id=1, msg='raw cursor')
 
 
@@ -642,6 +645,65 @@ def explain(fn, **kw):
     """for replays / classify: run a harness untraced and return (result, reasons, statement journal)"""
     r = globals()[fn](**kw)
     return r, list(LAST.get('why', ())), plan.dump()
+
+
+# ------------------------------------------------------------------------------------ concrete tie: real process death
+def tie_main():
+    """Concrete tie (NOT solver-quantified): the same sessions in a forked child process that really ends (os._exit) at
+    statement k, for every k of every program x mode; the parent - another process - then opens the file.  SQLite's
+    crash recovery (hot journal) is what runs here instead of the "connection closed without commit" stand-in of the
+    harnesses.  Prints one JSON line per program."""
+    import json
+    from pony.orm import db_session
+    setup()
+    modes = range(4 if os.environ.get('C17_FULL') == '1' else 3)
+    only = [x for x in os.environ.get('C17_TIE_PROGRAMS', '').split(',') if x]
+    for name in (only or PROGRAMS):
+        body = PROGRAMS[name][0]
+        bad, runs = [], 0
+        for mode in modes:
+            _scenario_body(name, (0, 0, 0), (0, 0, 0), mode, False)
+            n = plan.n
+            for k in range(1, n + 2):
+                _reset()
+                r, w = os.pipe()
+                pid = os.fork()
+                if pid == 0:
+                    code = 1
+                    try:
+                        os.close(r)
+                        plan.arm((k,), (3,))
+                        def mark(i): os.write(w, bytes([i]))
+                        try:
+                            if name in SESSION_EXTRA:
+                                kw = dict(MODE_KW[mode]); kw.update(SESSION_EXTRA[name]())
+                                db_session(**kw)(body)(E, mark)
+                            else:
+                                with db_session(**MODE_KW[mode]):
+                                    body(E, mark)
+                            code = 0
+                        except Exception:
+                            code = 2
+                    finally:
+                        os._exit(code)
+                os.close(w)
+                _, status = os.waitpid(pid, 0)
+                marks = b''
+                while True:
+                    chunk = os.read(r, 64)
+                    if not chunk: break
+                    marks += chunk
+                os.close(r)
+                code = os.waitstatus_to_exitcode(status)
+                runs += 1
+                why = []
+                died = code == EXIT_DIED
+                if not died and code != 0: why.append('child ended with exit code %d although no statement %d exists' % (code, k))
+                if died != (k <= n): why.append('child %s at k=%d of %d statements' % ('died' if died else 'survived', k, n))
+                _judge(name, read_state(), max(marks) if marks else 0, True if died else None, False, why)
+                if why: bad.append({'mode': MODE_NAMES[mode], 'k': k, 'why': why})
+        print(json.dumps({'program': name, 'runs': runs, 'bad': bad[:3]}), flush=True)
+    _cleanup()
 
 
 HARNESSES = []
@@ -918,3 +980,7 @@ def retry(k1: int, k2: int, k3: int, kind1: int, kind2: int, kind3: int, mode: i
     """
     return ok(_scenario('retry', k1, k2, k3, kind1, kind2, kind3, mode, warm))
 HARNESSES.append('retry')
+
+
+if __name__ == '__main__':
+    tie_main()
